@@ -701,6 +701,24 @@ func genProto() (string, error) {
 	})
 	fmt.Fprintf(&b, "/-- the digests `VerifyRLPBytes` takes of the rebuilt and of the submitted transaction -/\ndef rlpBindingDigests : List String := %s\n", strList(digests))
 	fmt.Fprintf(&b, "def src_VerifyRLPBytes : String := %q\n\n", g.StmtsText(vr.Body.List))
+	// serialized multi-signature keys: does the parser refuse raised padding bits of the signer bitmap?
+	blsf, err := g.ParseFile(filepath.Join(*repo, "lib/crypto/bls.go"))
+	if err != nil {
+		return "", err
+	}
+	mfn := blsf.FindFunc("", "NewMultiBLSFromPublicKey")
+	if mfn == nil {
+		return "", fmt.Errorf("lib/crypto/bls.go: NewMultiBLSFromPublicKey not found")
+	}
+	padChecked := false
+	ast.Inspect(mfn.Body, func(n ast.Node) bool {
+		if be, ok := n.(*ast.BinaryExpr); ok && be.Op == token.SHR && strings.Contains(g.ExprText(be.X), "mpk.Bitmap") {
+			padChecked = true
+		}
+		return true
+	})
+	fmt.Fprintf(&b, "/-- `NewMultiBLSFromPublicKey` inspects the bits of the signer bitmap beyond the last key (padding must be zero) -/\ndef multisigPaddingEnforced : Bool := %v\n", padChecked)
+	fmt.Fprintf(&b, "def src_NewMultiBLSFromPublicKey : String := %q\n\n", g.StmtsText(mfn.Body.List))
 	// 4. public-key decoding by length (lib/crypto/key.go)
 	kf, err := g.ParseFile(filepath.Join(*repo, "lib/crypto/key.go"))
 	if err != nil {
